@@ -84,6 +84,8 @@ impl<'a> Selector<'a> {
 
         if self.json_path.is_predicate() {
             Self::build_predicate_result(&mut poses, data)?;
+            // the boolean result is one returned item, report its end offset like for other items
+            offsets.push(data.len() as u64);
             return Ok(());
         }
 
